@@ -72,12 +72,14 @@ CLAIMED = {
         'complete (every generator and inverse generator defined at every row), the action of the inverse generator undoes the generator, the action is transitive, every relator traced from every '
         'row ends in that row and every subgroup generator traced from row 0 ends in row 0 (completeness and inverse-consistency from invariants of the enumeration and of '
         'the coincidence procedure, closure from the final consistency pass, all carried through the renumbering of compact), so that the result meets the precondition '
-        'of coset_representative; for every complete table in which inverse generators undo generators, every '
+        'of coset_representative; the table is universal: into every model (an action of the generators on points with inverse generators undoing generators, relators acting '
+        'trivially, subgroup generators fixing a base point) there is an equivariant map of the rows sending row 0 to the base point, i.e. the enumeration never identifies two '
+        'rows that some model separates (the contract form of "exactly [G:H] rows"); for every complete table in which inverse generators undo generators, every '
         '(row, word) coset_representative returns traces from row 0 to that row; get/set/join are specified against the abstract action with whole-table frames; the scans '
         'trace exactly the prefix they report.',
    note='Trusted: Verus+Z3, vstd, VecDeque/BTreeMap::from specs; all_gens and five std collection expressions in coset_table (BTreeSet new/extend/iteration, iter().chain(), '
         'Vec::extend(Option)) by their std semantics; the row-limit assert as an abort; FreeWord and IntPartition by the contracts proved in units free_words / partitions '
-        '(run as dependencies). NOT decided by contracts (bounded stand-in): row count = index (rows are pairwise different cosets); termination.',
+        '(run as dependencies). Not formalised: the group-theoretic identification of the universal transitive table with G/H (the number [G:H] itself is compared by the bounded stand-in); termination.',
    ref='5 C11', technique=TECH),
  'C05': dict(
    text='Unbounded proof (Verus/Z3) over the real bodies of build_set, build_sym_using_ms, orbit_reps_2d, cover and oriented_cover: for every complete base '
